@@ -42,6 +42,17 @@ func Corpus() []*Scenario {
 			Script: []Fault{{Kind: "lose-ack"}},
 			Gates:  []GateSpec{{Kind: "pp.recv", Nth: 2, Partition: 0, Retries: 1, Data: true}},
 			Steps:  []Step{{Op: "submit", Arg: 0}, {Op: "wait-gate", Arg: 0}, {Op: "sleep", Arg: 70}, {Op: "release", Arg: 0}, {Op: "sleep", Arg: 60}}},
+		// c05_refuted_backlog: [1] is answered NotLeaderForPartition (nothing appended) and re-sent whole; message 2 is
+		// bounced by the broker worker and opens retry level 1 at the partition worker; while the fin marker is on its
+		// way back (held at the retry handler) the fresh message 3 is parked in the level-0 backlog; flushRetryBuffers
+		// forwards it WITHOUT a sequence number: it travels as (epoch 0, sequence 0), the broker takes it for the
+		// cached batch [1] and answers Ok: message 3 is reported successful and is not in the log
+		{Name: "witness/unsequenced-backlog", Brokers: 1, Partitions: 1, RetryMax: 2,
+			Msgs:   []MsgSpec{{ID: 1, Partition: 0}, {ID: 2, Partition: 0, Wave: 1}, {ID: 3, Partition: 0, Wave: 2}},
+			Script: []Fault{ans(pRetriable)},
+			Gates:  []GateSpec{{Kind: "rh.recv", Nth: 1, Partition: -1, Retries: -1, Fin: true}},
+			Steps: []Step{{Op: "submit", Arg: 0}, {Op: "wait-requests", Arg: 1}, {Op: "sleep", Arg: 3}, {Op: "submit", Arg: 1},
+				{Op: "wait-gate", Arg: 0}, {Op: "wait-outcome", ID: 2}, {Op: "submit", Arg: 2}, {Op: "sleep", Arg: 3}, {Op: "release", Arg: 0}}},
 		// in class: lost acknowledgement of a whole batch answered per partition, resent whole, deduplicated
 		{Name: "class/after-append-resend", Brokers: 1, Partitions: 1, RetryMax: 2, FlushMsgs: 2, FlushFreqMs: 300,
 			Msgs:   []MsgSpec{{ID: 1, Partition: 0}, {ID: 2, Partition: 0}},
@@ -149,4 +160,6 @@ func Gen(r *rand.Rand, name string, class int, big bool) *Scenario {
 	return sc
 }
 
-func GenName(seed int64, i int, class int) string { return fmt.Sprintf("gen/%d/%d/c%d", seed, i, class) }
+func GenName(seed int64, i int, class int) string {
+	return fmt.Sprintf("gen/%d/%d/c%d", seed, i, class)
+}
